@@ -312,7 +312,11 @@ def _run(ctx, make_solver, det, t_first_bad, step, cont, nrows_full, injected_si
                       {**det, "first_unconverged_time": t_first_bad})
         return "unconverged_rows"
     t_last = float(t[-1]) if len(t) else (t_first_bad - step if t_first_bad is not None else 0.0)
-    if not _names_time(msgs, t_last, step):
+    named = _names_time(msgs, t_last, step)
+    if not len(t) and not named:
+        # nothing was returned at all: the run may also have stopped in its very first step, the time named is then the initial one
+        named = _names_time(msgs, 0.0, step)
+    if not named:
         ctx.cls("outcome:truncated_without_time")
         ctx.violation(f"{det.get('solver')}.solve", "truncated solution returned but no warning names the time at which the solver stopped", det)
         return "no_time"
@@ -394,7 +398,15 @@ def run_case(spec, ctx):
                 res = _run(ctx, lambda: sv.Newton(S, n_load_steps=4, verbose=False, options=SolverOptions(**kw)), det, 0.75 if how == "nan_load" else None, 0.25, cont, 5)
             else:
                 S = _contact(rng, resting=bool(rng.random() < 0.5))
-                S.assemble()
+                try:
+                    S.assemble()
+                except AssertionError as e_:
+                    if "does not converge" not in str(e_):
+                        raise
+                    # the initial fixed point of the generated scene gave up (loudly): there is no run to judge
+                    ctx.undecided("System.assemble: initial fixed-point iteration did not converge (said so)")
+                    ctx.sig([spec], nontrivial=False)
+                    return
                 res = _run(ctx, lambda: dyn_solver(solver, S, SolverOptions(**kw)), det, None, DT, cont, NSTEPS + 1)
         # a natural provocation that happens to converge anyway returns a full solution without warning: not a failure case
         consumed = True
